@@ -10,7 +10,7 @@ deliveries only from members and only with the true source, at most one CONNECTE
 'connected' notifications only with a CONNECTED registered connection, and - after a fault-free tail - every pair
 connected again within connectionRetryTime + 4 rounds.
 """
-PROPERTIES = ["C14"]
+PROPERTIES = ["C14", "C18"]
 ORDER = 50
 
 import glob
